@@ -1,14 +1,15 @@
 #!/bin/bash
 # usage: try_seed.sh <patch.diff> <prop> [<prop>...]   -- applies the patch to a scratch copy of /repo and runs the checks against it
+# (evidence of a run against a tree other than /repo goes to build/evidence_other, never to /verif/evidence)
 set -e
 P=$1; shift
-S=/tmp/seed_try_repo
+S=/tmp/seed_try_repo_$$
 rm -rf $S; rsync -a --exclude target --exclude .git /repo/ $S/
 (cd $S && patch -p1 -s < $P)
-cp -r /verif/evidence /tmp/seed_try_evidence
 for prop in "$@"; do
   python3 /verif/vp.py check $prop --repo $S 2>&1 | grep -v "^NOTE" | grep "^OK\|^VIOLATION\|^UNDECIDED\|^FAILED\|^FAILING" | cut -c1-220
   echo "rc($prop)=${PIPESTATUS[0]}"
 done
-rm -rf /verif/evidence; mv /tmp/seed_try_evidence /verif/evidence
 rm -rf $S
+TAG=$(python3 -c "import hashlib,sys;print(hashlib.sha1(sys.argv[1].encode()).hexdigest()[:8])" $S)
+rm -rf /verif/build/native_$TAG /verif/build/dnative_$TAG
